@@ -41,6 +41,9 @@ func (i *JsUInt64) UnmarshalJSON(b []byte) error {
 		}
 		return ErrInvalidInt64Js
 	}
+	if b[0] != '"' || b[lb-1] != '"' {
+		return ErrInvalidUInt64Js
+	}
 
 	strBuf := string(b[1 : lb-1])
 	t, err := strconv.ParseUint(strBuf, 10, 64)
